@@ -211,10 +211,115 @@ func runC20(c *Ctx) {
 	checkClassSurvives(c)
 	checkSynNoDial(c)
 	checkE2eOverride(c, sackMethods)
+	checkOptionScan(c)
 	_ = R
 }
 
 // checkSelector is R20.1; returns the method constants routed to the SACK implementation.
+// checkOptionScan is R20.6: 'no SACK-permitted in the handshake' is what the NotSupported verdict of the handshake claims, so
+// the scan that looks for the option has to look at every option: the loop that tests an option kind against SACK-permitted may
+// be left before exhaustion only towards an outcome that is not that verdict – in a helper that returns the flag, an early
+// return must return constant true; in a function that builds the verdict itself, an early exit must not reach a NotSupportedError.
+func checkOptionScan(c *Ctx) {
+	R := c.R
+	sp := c.P.SSAPkgs["sack"]
+	if sp == nil {
+		R.Fail("R20.6", "sack#option-scan", 0, "", "package sack no longer resolves")
+		return
+	}
+	isSackPermittedConst := func(v ssa.Value) bool {
+		k, ok := v.(*ssa.Const)
+		if !ok || k.Value == nil || !isNamed(k.Type(), "github.com/google/gopacket/layers", "TCPOptionKind") {
+			return false
+		}
+		return k.Int64() == 4
+	}
+	n := 0
+	for _, g := range c.P.ModFuncs {
+		if core.FuncPkg(g) != sp.Pkg || strings.Contains(core.FuncName(g), "Mock") {
+			continue
+		}
+		var cmpBlock *ssa.BasicBlock
+		for _, b := range g.Blocks {
+			for _, in := range b.Instrs {
+				if bo, ok := in.(*ssa.BinOp); ok && bo.Op == token.EQL && (isSackPermittedConst(bo.X) || isSackPermittedConst(bo.Y)) {
+					cmpBlock = b
+				}
+			}
+		}
+		if cmpBlock == nil {
+			continue
+		}
+		gn := core.FuncName(g)
+		loop := innermostLoop(g, cmpBlock)
+		if loop == nil {
+			R.Fail("R20.6", gn+"#option-scan", g.Pos(), gn, "the SACK-permitted option kind is tested outside a loop over the options: undecided")
+			continue
+		}
+		n++
+		// the header is the block of the loop that dominates all others
+		var header *ssa.BasicBlock
+		for b := range loop {
+			dom := true
+			for o := range loop {
+				if !b.Dominates(o) {
+					dom = false
+				}
+			}
+			if dom {
+				header = b
+			}
+		}
+		early := map[[2]*ssa.BasicBlock]bool{}
+		for b := range loop {
+			if b == header {
+				continue
+			}
+			for _, s := range b.Succs {
+				if !loop[s] {
+					early[[2]*ssa.BasicBlock{b, s}] = true
+				}
+			}
+		}
+		res := g.Signature.Results()
+		boolIdx := -1
+		for i := 0; i < res.Len(); i++ {
+			if bt, ok := res.At(i).Type().Underlying().(*types.Basic); ok && bt.Kind() == types.Bool {
+				boolIdx = i
+			}
+		}
+		bad := ""
+		rps, _ := core.ReturnPaths(c.P, g, 5000)
+		for _, rp := range rps {
+			viaEarly := false
+			for i := 0; i+1 < len(rp.Path.Blocks); i++ {
+				if early[[2]*ssa.BasicBlock{rp.Path.Blocks[i], rp.Path.Blocks[i+1]}] {
+					viaEarly = true
+				}
+			}
+			if !viaEarly {
+				continue
+			}
+			if boolIdx >= 0 {
+				if !rp.Results[boolIdx].IsConst("true") {
+					bad = fmt.Sprintf("returns %s at %s after leaving the option loop early", rp.Results[boolIdx], c.P.PosStr(rp.Ret.Pos()))
+				}
+				continue
+			}
+			for _, r := range rp.Results {
+				if r.Has(func(x *core.Term) bool {
+					al, ok := x.Val.(*ssa.Alloc)
+					return ok && x.Op == "alloc" && isNamed(al.Type(), core.ModulePath+"/sack", "NotSupportedError")
+				}) {
+					bad = "reaches the NotSupportedError at " + c.P.PosStr(rp.Ret.Pos()) + " after leaving the option loop early"
+				}
+			}
+		}
+		R.Check(bad == "", "R20.6", gn+"#option-scan", g.Pos(), gn, fmt.Sprintf("the SACK-permitted scan looks at every option (%d early exits, none towards the 'unsupported' verdict)", len(early)), "the scan for the SACK-permitted option "+bad+": an option placed after the exit point is never seen and a SACK-capable target is reported as unsupported (prefer_sack then falls back although SACK is available)")
+	}
+	R.Floor("R20.6:option-scans", n, 1)
+}
+
 func checkSelector(c *Ctx) []string {
 	R := c.R
 	f := c.P.Func("traceroute.performTCPFallback")
@@ -560,8 +665,31 @@ func checkE2eOverride(c *Ctx, sackMethods []string) {
 				continue
 			}
 			atoms := ip.Atoms
-			n++
 			pt := ev.Args[2]
+			// the parameters arrive ready-made (derived once by the caller): judge the function that derives them
+			if pt.Op == "param" && pt.Val != nil {
+				if call, ok := c.P.DefX(pt.Val).(*ssa.Call); ok {
+					if h := call.Common().StaticCallee(); h != nil && core.FuncPkg(h) == core.FuncPkg(f) && len(h.Blocks) > 0 && h.Signature.Results().Len() == 1 {
+						for _, hp := range InlinedPaths(c.P, h, inlineOpts{pkg: core.FuncPkg(f), stop: workSignature}) {
+							n++
+							judgeE2eParams(c, fn, sackMethods, hp.Results[0], hp.Atoms, ev.Instr.Pos())
+						}
+						continue
+					}
+				}
+			}
+			n++
+			judgeE2eParams(c, fn, sackMethods, pt, atoms, ev.Instr.Pos())
+		}
+	}
+	R.Floor("R20.5:per-run-call-paths", n, 2)
+}
+
+// judgeE2eParams: pt is the parameter value an e2e probe hands to the per-run function on a path with conditions atoms.
+func judgeE2eParams(c *Ctx, fn string, sackMethods []string, pt *core.Term, atoms []core.Atom, pos token.Pos) {
+	R := c.R
+	{
+		{
 			m := core.ProjField(pt, "TCPMethod")
 			proto := core.ProjField(pt, "Protocol")
 			key := fmt.Sprintf("%s#e2e-method", fn)
@@ -574,7 +702,7 @@ func checkE2eOverride(c *Ctx, sackMethods []string) {
 						bad = true
 					}
 				}
-				R.Check(!bad && val == "syn", "R20.5", key, ev.Instr.Pos(), fn, "method rewritten to syn before the per-run function", "e2e probes run with method "+m.Name)
+				R.Check(!bad && val == "syn", "R20.5", key, pos, fn, "method rewritten to syn before the per-run function", "e2e probes run with method "+m.Name)
 			default:
 				// unmodified: the path must exclude every SACK-routing method, or a non-tcp protocol
 				excluded := map[string]bool{}
@@ -598,14 +726,13 @@ func checkE2eOverride(c *Ctx, sackMethods []string) {
 						miss = append(miss, s)
 					}
 				}
-				R.Check(all || nonTCP, "R20.5", key, ev.Instr.Pos(), fn, "method left unchanged only when it is not SACK-routed (or the protocol is not tcp)", fmt.Sprintf("an e2e probe can reach the per-run function with a SACK-routing method (%v not rewritten to syn); selector routes %v to SACK", miss, sackMethods))
+				R.Check(all || nonTCP, "R20.5", key, pos, fn, "method left unchanged only when it is not SACK-routed (or the protocol is not tcp)", fmt.Sprintf("an e2e probe can reach the per-run function with a SACK-routing method (%v not rewritten to syn); selector routes %v to SACK", miss, sackMethods))
 			}
 			// MinTTL = MaxTTL (C19 R19.4 shares this)
 			mn, mx := core.ProjField(pt, "MinTTL"), core.ProjField(pt, "MaxTTL")
-			R.Check(mn.Key() == mx.Key(), "R20.5", fn+"#single-probe", ev.Instr.Pos(), fn, "MinTTL = MaxTTL for e2e probes", "e2e probe does not set MinTTL = MaxTTL: "+mn.String()+" vs "+mx.String())
+			R.Check(mn.Key() == mx.Key(), "R20.5", fn+"#single-probe", pos, fn, "MinTTL = MaxTTL for e2e probes", "e2e probe does not set MinTTL = MaxTTL: "+mn.String()+" vs "+mx.String())
 		}
 	}
-	R.Floor("R20.5:per-run-call-paths", n, 2)
 }
 
 // ctorResultParam: g is a straight-line constructor returning &NotSupportedError{Err: <its parameter #i>}; returns i or -1.
